@@ -41,24 +41,38 @@ pub const R_LOCK: u32 = 32;
 pub const R_IDLE: u32 = 64;
 pub const R_ALL: u32 = 1 << 31;
 
+/// read-only access to the payload cache (conflicts with R_CACHE, not with itself)
+pub const R_CACHE_R: u32 = 128;
+
 #[derive(Clone, Debug, Default, PartialEq, Eq)]
 pub struct Res {
     pub bits: u32,
+    /// files written / synced / truncated / created / unlinked
     pub files: Vec<String>,
+    /// files only read
+    pub files_r: Vec<String>,
 }
 
 impl Res {
     pub fn bits(b: u32) -> Res {
-        Res { bits: b, files: vec![] }
+        Res { bits: b, files: vec![], files_r: vec![] }
     }
     pub fn independent(&self, o: &Res) -> bool {
         if (self.bits | o.bits) & R_ALL != 0 {
             return false;
         }
-        if self.bits & o.bits != 0 {
+        if self.bits & o.bits & !R_CACHE_R != 0 {
             return false;
         }
-        !self.files.iter().any(|f| o.files.contains(f))
+        // readers of the cache conflict with writers of the (same instance's) cache
+        let cache_w = |b: u32| b & (R_CACHE | (R_CACHE << 8) | (R_CACHE << 16)) != 0;
+        if (self.bits & R_CACHE_R != 0 && cache_w(o.bits)) || (o.bits & R_CACHE_R != 0 && cache_w(self.bits)) {
+            return false;
+        }
+        if self.files.iter().any(|f| o.files.contains(f) || o.files_r.contains(f)) {
+            return false;
+        }
+        !self.files_r.iter().any(|f| o.files.contains(f))
     }
 }
 
@@ -89,6 +103,8 @@ pub enum OpGate {
     Always,
     WaitAck(u64),
     WaitIdle(usize),
+    /// enabled once the harness flag with this bit is set
+    Flag(u32),
 }
 
 #[derive(Clone, Debug)]
@@ -163,6 +179,7 @@ pub struct Inner {
     pub degraded: bool,
     pub violations: Vec<crate::report::Violation>,
     pub notes: Vec<String>,
+    pub flags: u32,
     chooser: Option<ChooserPtr>,
     over: bool,
     deadlock: Option<String>,
@@ -204,7 +221,7 @@ pub fn gate(tid: usize, mut p: Pending) -> Fault {
         // operation (apply/insert/evict, stat) and, for reads, between the
         // preads; those are tagged by the op gate / extra_bits. Its other
         // segments (chunk creation, head write, channel sends) do not.
-        if matches!(slot.kind, ThreadKind::Caller | ThreadKind::Reader) && matches!(p.point, Point::Op(..)) {
+        if matches!(slot.kind, ThreadKind::Caller) && matches!(p.point, Point::Op(..)) {
             p.res.bits |= R_CACHE;
         }
         slot.pending = Some(p);
@@ -309,7 +326,8 @@ fn decide(inner: &mut Inner) {
 
 pub fn fs_gate(tid: usize, call: &FsCall) -> Fault {
     let res = match call.kind {
-        FsKind::Create | FsKind::Unlink => Res { bits: R_DIR, files: vec![call.name.clone()] },
+        FsKind::Create | FsKind::Unlink => Res { bits: R_DIR, files: vec![call.name.clone()], files_r: vec![] },
+        FsKind::Read | FsKind::Pread => Res { bits: 0, files: vec![], files_r: vec![call.name.clone()] },
         FsKind::Opendir => Res::bits(R_DIR),
         FsKind::Open => {
             if call.name == "LOCK" {
@@ -319,7 +337,7 @@ pub fn fs_gate(tid: usize, call: &FsCall) -> Fault {
             }
         }
         FsKind::Flock | FsKind::Close => Res::bits(R_LOCK),
-        _ => Res { bits: 0, files: vec![call.name.clone()] },
+        _ => Res { bits: 0, files: vec![call.name.clone()], files_r: vec![] },
     };
     gate(tid, Pending { point: Point::Fs(call.kind.clone(), call.name.clone()), res, call: Some(call.clone()) })
 }
@@ -467,6 +485,10 @@ pub fn set_extra_bits(bits: u32) {
     }
 }
 
+pub fn set_flag(bit: u32) {
+    with_inner(|i| i.flags |= bit);
+}
+
 pub fn mark_sender_dropped(inst: usize) {
     with_inner(|i| {
         if inst < i.sender_dropped.len() {
@@ -545,6 +567,7 @@ fn enabled_now(i: &Inner, ch: &dyn Chooser) -> Vec<Enabled> {
                 None => true,
                 Some(wt) => i.slots[wt].state == TState::Finished,
             },
+            Point::Op(_, OpGate::Flag(bit)) => i.flags & bit != 0,
             Point::Op(_, OpGate::WaitAck(id)) => i.trace.iter().any(|e| matches!(e, Event::Ack(a) if a.id() == *id)),
             Point::Op(_, OpGate::WaitIdle(inst)) => match i.worker_of_inst.get(*inst).copied().flatten() {
                 None => true,
@@ -995,7 +1018,7 @@ pub fn toy_explore(n: usize, dependent: bool, lost_update: bool) -> (u64, u64, u
         let mk = |me: usize, shared: Arc<AtomicU64>| -> ThreadBody {
             Box::new(move || {
                 for k in 0..n {
-                    let res = if dependent { Res::bits(R_CACHE) } else { Res { bits: 0, files: vec![format!("f{}-{}", me, k)] } };
+                    let res = if dependent { Res::bits(R_CACHE) } else { Res { bits: 0, files: vec![format!("f{}-{}", me, k)], files_r: vec![] } };
                     if lost_update {
                         toy_gate("load", Res::bits(R_DONE));
                         let v = shared.load(Ordering::SeqCst);
